@@ -3,6 +3,7 @@ package checks
 import (
 	"bytes"
 	"encoding/json"
+	"os"
 	"testing"
 
 	"verifsim/chainsim"
@@ -13,7 +14,8 @@ import (
 // C02 has two kinds of plan: direct import histories (chainsim.Plan) and
 // full-stack networks (netsim.FullPlan: whole nodes joined by the real p2p and
 // sub-protocol stack, with mining, partitions and heals), and miner histories in which
-// the write of a freshly mined block overlaps the import of a competing block.
+// the write of a freshly mined block overlaps the import of a competing block; every eleventh case is
+// a future-block history (chainsim/future.go): timestamps straddling the clock, the chain's own timer.
 func TestC02(t *testing.T) {
 	imp := chainsim.ExecChain("C02")
 	meta := map[string]any{}
@@ -30,6 +32,9 @@ func TestC02(t *testing.T) {
 	kernel.Run(t, &kernel.Spec{
 		Prop: "C02", Engine: "chainsim+netsim",
 		Generate: func(rng *kernel.RNG, env *kernel.Env, k int) any {
+			if k%11 == 10 || os.Getenv("VERIF_ONLY") == "future" {
+				return chainsim.GenC02Future(rng, env, k)
+			}
 			if k%5 == 4 {
 				return netsim.GenFullPlan(rng, env, k)
 			}
